@@ -184,4 +184,9 @@ theorem v1_source_text_canonical (t : Bytes) (o : Bytes) (h : parseV4Octets t = 
     simp only [hx, Option.map_some, Option.some.injEq] at h
     exact ⟨x, h.symm, C19V4.show_parse t x hx⟩
 
+/- the premises are met and the parser model computes (tests, labelled so): the menu's first line announces 10.1.1.1:4000
+   and is consumed whole (41 bytes); the same line with a leading zero in the source is no valid header -/
+example : parse ⟨true, true⟩ parseV4Octets (fun _ => none) ([80, 82, 79, 88, 89, 32, 84, 67, 80, 52, 32, 49, 48, 46, 49, 46, 49, 46, 49, 32, 49, 48, 46, 57, 46, 57, 46, 57, 32, 52, 48, 48, 48, 32, 50, 53, 53, 54, 53, 13, 10] : Bytes) = .ok (some ⟨[10, 1, 1, 1], 4000⟩) 41 := by decide
+example : parse ⟨true, true⟩ parseV4Octets (fun _ => none) ([80, 82, 79, 88, 89, 32, 84, 67, 80, 52, 32, 48, 49, 48, 46, 49, 46, 49, 46, 49, 32, 49, 48, 46, 57, 46, 57, 46, 57, 32, 52, 48, 48, 48, 32, 50, 53, 53, 54, 53, 13, 10] : Bytes) = .invalid := by decide
+
 end Passage.Props.C15Proxy
